@@ -6,10 +6,14 @@
 import Bridge.Abs
 import PtaProofs.Lemmas.RuleAlgebra
 import PtaProofs.Lemmas.AnythingDedup
+import PtaProofs.Lemmas.RuleErrors
 namespace Pta.C12
 open Pta
 
-/-- duality: `A should (not) import B` and `B should (not) be imported by A` have the same verdict -/
+/-- duality: `A should (not) import B` and `B should (not) be imported by A` have the same verdict.
+    Three-valued: this is an equation between verdict CLASSES (`VClass` = pass | fail | err k), so it says at once:
+    one passes iff the other passes, one fails iff the other fails, and one raises error `k` iff the other raises the
+    same `k` (no hypothesis; ill-configured rules, unknown names and regexes without a match included). -/
 theorem duality (mt : Str → Str → Bool) (g : PGraph Str) (A B : List Filter) (neg : Bool) :
     verdictOf mt g (mkRule (!neg) false neg true false A B) = verdictOf mt g (mkRule (!neg) false neg false false B A) :=
   Pta.duality_lemma mt g A B neg
@@ -136,5 +140,135 @@ example : verdictOf (fun _ _ => false) exG2 (mkRule false false true true true e
 example : verdictOf (fun _ _ => false) exG2
     { cfg := { subjects := some exS3, shouldNot := true, importDir := some true, anything := true }, next := some false } =
     .err .lookupError := by decide
+
+
+/-! ## three-valued forms (audit finding F13)
+
+`verdictOf` has three kinds of values: `.pass`, `.fail`, `.err k`. The laws above are stated for `.pass` / `.fail`; the
+theorems below add the error side, so that "passes exactly when both pass" is complemented by "raises exactly when one
+of them raises — and then all of them raise, the same error". -/
+
+/-- when a finished rule raises, and what, does not depend on verb, `except` or direction: two rules `mkRule …` on the
+    same subjects and objects, each with a verb and a consistent behaviour, raise the same errors. (The three query
+    families raise `lookupError` on the same inputs: a converted subject or object that is not a module.) -/
+theorem error_independent_of_verb (mt : Str → Str → Bool) (g : PGraph Str) (A B : List Filter) (s o n d e s' o' n' d' e' : Bool)
+    (hverb : (s || o || n) = true) (hc : (⟨s, o, n, e⟩ : Behavior).inconsistent = false)
+    (hverb' : (s' || o' || n') = true) (hc' : (⟨s', o', n', e'⟩ : Behavior).inconsistent = false) (k : ErrKind) :
+    verdictOf mt g (mkRule s o n d e A B) = .err k ↔ verdictOf mt g (mkRule s' o' n' d' e' A B) = .err k :=
+  Pta.rule_error_lemma mt g A B s o n d e s' o' n' d' e' hverb hc hverb' hc' k
+
+/-- error side of `decomposition`: `should only` raises `k` exactly when `should` raises `k`, and exactly when
+    `should not … except` raises `k` (so the three rules raise together) -/
+theorem decomposition_err_both (mt : Str → Str → Bool) (g : PGraph Str) (A B : List Filter) (dir : Bool) (k : ErrKind) :
+    (verdictOf mt g (mkRule false true false dir false A B) = .err k ↔
+      verdictOf mt g (mkRule true false false dir false A B) = .err k) ∧
+    (verdictOf mt g (mkRule false true false dir false A B) = .err k ↔
+      verdictOf mt g (mkRule false false true dir true A B) = .err k) :=
+  Pta.decomposition_err_lemma mt g A B dir k
+
+/-- … in particular: `should only` raises exactly when one of the two raises -/
+theorem decomposition_err (mt : Str → Str → Bool) (g : PGraph Str) (A B : List Filter) (dir : Bool) (k : ErrKind) :
+    verdictOf mt g (mkRule false true false dir false A B) = .err k ↔
+    (verdictOf mt g (mkRule true false false dir false A B) = .err k ∨
+     verdictOf mt g (mkRule false false true dir true A B) = .err k) := by
+  obtain ⟨h1, h2⟩ := decomposition_err_both mt g A B dir k
+  exact ⟨fun h => .inl (h1.1 h), fun h => h.elim h1.2 h2.2⟩
+
+/-- the whole truth table of `decomposition` in one equation: the class of `should only` is the three-valued
+    conjunction (`VClass.both`: an error if either raises, else fail if either fails, else pass) of the classes of
+    `should` and `should not … except` -/
+theorem decomposition_eq (mt : Str → Str → Bool) (g : PGraph Str) (A B : List Filter) (dir : Bool) :
+    verdictOf mt g (mkRule false true false dir false A B) =
+      VClass.both (verdictOf mt g (mkRule true false false dir false A B)) (verdictOf mt g (mkRule false false true dir true A B)) :=
+  Pta.decomposition_eq_lemma mt g A B dir
+
+/-- hence the fail side: `should only` fails exactly when one of the two fails -/
+theorem decomposition_fail (mt : Str → Str → Bool) (g : PGraph Str) (A B : List Filter) (dir : Bool) :
+    verdictOf mt g (mkRule false true false dir false A B) = .fail ↔
+    (verdictOf mt g (mkRule true false false dir false A B) = .fail ∨
+     verdictOf mt g (mkRule false false true dir true A B) = .fail) := by
+  have he := decomposition_err_both mt g A B dir
+  rw [decomposition_eq]
+  generalize verdictOf mt g (mkRule false true false dir false A B) = x at he
+  generalize verdictOf mt g (mkRule true false false dir false A B) = a at he ⊢
+  generalize verdictOf mt g (mkRule false false true dir true A B) = b at he ⊢
+  cases a <;> cases b <;> simp [VClass.both]
+  all_goals (rename_i k; have := he k; simp_all)
+
+/-- the same three statements for `should only … except` = `should … except` ⊓ `should not` -/
+theorem decomposition_except_err_both (mt : Str → Str → Bool) (g : PGraph Str) (A B : List Filter) (dir : Bool) (k : ErrKind) :
+    (verdictOf mt g (mkRule false true false dir true A B) = .err k ↔
+      verdictOf mt g (mkRule true false false dir true A B) = .err k) ∧
+    (verdictOf mt g (mkRule false true false dir true A B) = .err k ↔
+      verdictOf mt g (mkRule false false true dir false A B) = .err k) :=
+  Pta.decomposition_except_err_lemma mt g A B dir k
+
+theorem decomposition_except_err (mt : Str → Str → Bool) (g : PGraph Str) (A B : List Filter) (dir : Bool) (k : ErrKind) :
+    verdictOf mt g (mkRule false true false dir true A B) = .err k ↔
+    (verdictOf mt g (mkRule true false false dir true A B) = .err k ∨
+     verdictOf mt g (mkRule false false true dir false A B) = .err k) := by
+  obtain ⟨h1, h2⟩ := decomposition_except_err_both mt g A B dir k
+  exact ⟨fun h => .inl (h1.1 h), fun h => h.elim h1.2 h2.2⟩
+
+theorem decomposition_except_eq (mt : Str → Str → Bool) (g : PGraph Str) (A B : List Filter) (dir : Bool) :
+    verdictOf mt g (mkRule false true false dir true A B) =
+      VClass.both (verdictOf mt g (mkRule true false false dir true A B)) (verdictOf mt g (mkRule false false true dir false A B)) :=
+  Pta.decomposition_except_eq_lemma mt g A B dir
+
+/-- error side of `negation` — for ALL subject / object lists, regexes included: `should not` raises `k` exactly when
+    `should` raises `k` (plain and `except` forms, both directions) -/
+theorem negation_err (mt : Str → Str → Bool) (g : PGraph Str) (A B : List Filter) (dir exc : Bool) (k : ErrKind) :
+    verdictOf mt g (mkRule false false true dir exc A B) = .err k ↔ verdictOf mt g (mkRule true false false dir exc A B) = .err k :=
+  Pta.negation_err_lemma mt g A B dir exc k
+
+/-- the whole truth table of `negation` (one subject module, one object module): the class of `should not` is the
+    three-valued negation (`VClass.neg`: pass ↔ fail, errors kept) of the class of `should` -/
+theorem negation_eq (mt : Str → Str → Bool) (g : PGraph Str) (s o : Filter) (dir exc : Bool)
+    (hs : s.isRegex = false) (ho : o.isRegex = false) :
+    verdictOf mt g (mkRule false false true dir exc [s] [o]) = VClass.neg (verdictOf mt g (mkRule true false false dir exc [s] [o])) :=
+  Pta.negation_eq_lemma mt g s o dir exc hs ho
+
+/-- hence the other half of `negation`: `should` fails exactly when `should not` passes -/
+theorem negation_fail (mt : Str → Str → Bool) (g : PGraph Str) (s o : Filter) (dir exc : Bool)
+    (hs : s.isRegex = false) (ho : o.isRegex = false) :
+    verdictOf mt g (mkRule true false false dir exc [s] [o]) = .fail ↔
+    verdictOf mt g (mkRule false false true dir exc [s] [o]) = .pass := by
+  rw [negation_eq mt g s o dir exc hs ho]
+  cases verdictOf mt g (mkRule true false false dir exc [s] [o]) <;> simp [VClass.neg]
+
+/-- error side of the two monotonicity laws: adding an import edge does not change which error a rule raises (it adds
+    no module), so the only change it can cause is `fail → pass` for `should` and `pass → fail` for `should not` -/
+theorem monotone_err (mt : Str → Str → Bool) (g : PGraph Str) (u v : Str) (A B : List Filter) (neg dir exc : Bool) (k : ErrKind) :
+    verdictOf mt (addImportEdge g u v) (mkRule (!neg) false neg dir exc A B) = .err k ↔
+    verdictOf mt g (mkRule (!neg) false neg dir exc A B) = .err k :=
+  Pta.monotone_err_lemma mt g u v A B (!neg) false neg dir exc (by cases neg <;> rfl) (by cases neg <;> cases exc <;> rfl) k
+
+/-- the hypotheses of `error_independent_of_verb` hold for all six rule shapes of this file -/
+example : ∀ e : Bool, (⟨true, false, false, e⟩ : Behavior).inconsistent = false ∧ (⟨false, true, false, e⟩ : Behavior).inconsistent = false ∧
+    (⟨false, false, true, e⟩ : Behavior).inconsistent = false := by decide
+
+/-! non-vacuity of the error side: an unknown object name makes all three rules raise the lookup error, a regex without
+    a match the `impossibleMatch` error; and an instance where `should only` fails because exactly one side fails -/
+example : verdictOf (fun _ _ => false) exG (mkRule false true false true false [.name "p".toList] [.name "zz".toList]) = .err .lookupError ∧
+    verdictOf (fun _ _ => false) exG (mkRule true false false true false [.name "p".toList] [.name "zz".toList]) = .err .lookupError ∧
+    verdictOf (fun _ _ => false) exG (mkRule false false true true true [.name "p".toList] [.name "zz".toList]) = .err .lookupError := by
+  decide
+example : verdictOf (fun _ _ => false) exG (mkRule false true false true false [.regex "x.*".toList] [.name "q".toList]) = .err .impossibleMatch ∧
+    verdictOf (fun _ _ => false) exG (mkRule true false false true false [.regex "x.*".toList] [.name "q".toList]) = .err .impossibleMatch := by
+  decide
+def exG3 : PGraph Str :=
+  buildGraph ["p".toList, "p.a".toList, "p.b".toList, "q".toList, "r".toList]
+    [absImport "p.a".toList "q".toList, absImport "p.b".toList "r".toList] none
+example : verdictOf (fun _ _ => false) exG3 (mkRule false true false true false [.name "p".toList] [.name "q".toList]) = .fail ∧
+    verdictOf (fun _ _ => false) exG3 (mkRule true false false true false [.name "p".toList] [.name "q".toList]) = .pass ∧
+    verdictOf (fun _ _ => false) exG3 (mkRule false false true true true [.name "p".toList] [.name "q".toList]) = .fail := by
+  decide
+example : verdictOf (fun _ _ => false) exG (mkRule false true false true false [.name "p".toList] [.name "q".toList]) = .pass ∧
+    verdictOf (fun _ _ => false) exG (mkRule true false false true false [.name "p".toList] [.name "q".toList]) = .pass ∧
+    verdictOf (fun _ _ => false) exG (mkRule false false true true true [.name "p".toList] [.name "q".toList]) = .pass := by
+  decide
+example : verdictOf (fun _ _ => false) exG (mkRule true false false true false [.name "p.b".toList] [.name "q".toList]) = .fail ∧
+    verdictOf (fun _ _ => false) exG (mkRule false false true true false [.name "p.b".toList] [.name "q".toList]) = .pass := by
+  decide
 
 end Pta.C12
